@@ -333,18 +333,20 @@ func runTree(e *env, id string, spec Spec, flagsets []int, out func(string, Case
 		if err := json.Unmarshal(ob.Bytes(), &oracle); err != nil {
 			return fmt.Errorf("pkgof helper output: %w", err)
 		}
-		// cross-check against `go list` and against module path + relative directory
+		// cross-check: a package in directory d of module mod is mod + "/" + rel(d); and where
+		// `go list -e` itself resolves the directory to an import path (it does when the directory
+		// holds Go files; for a directory without Go files it echoes the directory name and
+		// x/tools/go/packages derives the path from the module root) the two must agree as well
 		var lb bytes.Buffer
 		lc := exec.Command("go", append([]string{"list", "-e", "-f", "{{.Dir}}\t{{.ImportPath}}"}, dirs...)...)
 		lc.Dir = cwdAbs
 		lc.Env = e.goenv
 		lc.Stdout = &lb
 		_ = lc.Run()
-		lines := strings.Split(strings.TrimSpace(lb.String()), "\n")
-		for i, l := range lines {
+		for _, l := range strings.Split(strings.TrimSpace(lb.String()), "\n") {
 			parts := strings.SplitN(l, "\t", 2)
-			if len(parts) == 2 && i < len(dirs) {
-				golist[dirs[i]] = parts[1]
+			if len(parts) == 2 && !strings.HasPrefix(parts[1], "/") && !strings.HasPrefix(parts[1], ".") {
+				golist[parts[0]] = parts[1]
 			}
 		}
 		for _, d := range dirs {
@@ -571,7 +573,7 @@ func genSpec(r *rand.Rand, kind string) Spec {
 	}
 	l := layouts[r.IntN(len(layouts))]
 	input, cwd := l[0], l[1]
-	spec := Spec{Kind: kind, Cwd: cwd}
+	spec := Spec{Kind: kind, Cwd: cwd, Includes: []Inc{}}
 	form := "rel"
 	switch x := r.IntN(100); {
 	case x < 35:
